@@ -51,7 +51,10 @@ class LineWriter(object):
                 v = bytes(v)
             if v is not None and not isinstance(v, _reprable):
                 raise TypeError(type(v))
-            self._dbfile.write(("\t%s=%r" % (k, v)).encode("latin1"))
+            # (repr() keeps non-ASCII characters as they are on Python 3; write
+            # them as escapes, which literal_eval() reads back)
+            self._dbfile.write(("\t%s=%r" % (k, v)).encode("ascii",
+                                                          "backslashreplace"))
         self._dbfile.write(b("\n"))
 
 
